@@ -53,6 +53,14 @@ try:
         meta["ran"].append(f"ASPIRE_REPO=<patched> ./check {c} --tier quick -> exit {rr.returncode} {mechs[:3]}")
     meta["detected_by"] = {c: v for c, v in det.items() if v["exit"] == 1}
     meta["not_detected_by"] = [c for c, v in det.items() if v["exit"] != 1]
+    if os.environ.get("SKIP_TESTS") and os.path.exists(prev_meta):
+        # re-validation of some checks only: keep what the earlier validation recorded for the others
+        old = json.load(open(prev_meta))
+        for c, v in old.get("detected_by", {}).items():
+            if c not in det:
+                meta["detected_by"][c] = v
+        meta["not_detected_by"] += [c for c in old.get("not_detected_by", []) if c not in det and c not in meta["not_detected_by"]]
+        meta["ran"] = old.get("ran", []) + ["re-validated against the strengthened checks:"] + meta["ran"]
     out = os.path.join(VERIF, "seeded", name)
     os.makedirs(out, exist_ok=True)
     for f in ("patch.diff", "demo.py", "notes.md"):
